@@ -28,6 +28,10 @@ def main(argv):
     if since:
         log = log[:log.index(since[:7])]
     out = []
+    path = os.path.join(ROOT, 'seeded', 'REVERTS-quick.json')
+    if only and os.path.exists(path):
+        # a partial run replaces its own entries only
+        out = [r for r in json.load(open(path)) if only not in r['id']]
     seen = set()
     for f in d['findings']:
         if f['status'] != 'fixed' or (only and only not in f['id']):
@@ -67,7 +71,7 @@ def main(argv):
         print('%-34s %s %s' % (f['id'], rec.get('error') or
                                ('DETECTED' if rec.get('detected') else 'MISSED'),
                                rec.get('wall_s', '')), flush=True)
-        json.dump(out, open(os.path.join(ROOT, 'seeded', 'REVERTS-quick.json'), 'w'), indent=1)
+        json.dump(out, open(path, 'w'), indent=1)
 
 
 if __name__ == '__main__':
